@@ -267,4 +267,7 @@ def check(ctx, run):
             run.proved('R12.2', b.path, 'same-key', f'{n_look} member lookup(s), all case-sensitive', f'{b.file}:{b.line}')
     tree_twin_counts(ctx, run, 'R12.2')
     dispatch.r11_1(ctx, run, rule='R12.3/R11.1', only={'functions::contains'})
+    import boundaries
+    _bf = lambda p_: p_ in ('functions::contains_jsonb', 'functions::contains_value')
+    boundaries.check(ctx, run, 'R12.4', [p_ for p_ in sorted(boundaries.load_baseline() or {}) if _bf(p_)], 'containment answers false')
     return report.finish(run, level='other', explanation=EXPLANATION, assumptions=["A1: valid documents"])
